@@ -274,6 +274,9 @@ def kkt(rng, tier):
         lqr = pp.module.LQR(system, Qm, p, H)
         for rep in range(2):                       # the second solve finds a stale time counter
             un = None if rng.random() < 0.5 else torch.randn(1, H, m, dtype=torch.float64, generator=g) * rng.choice([1.0, 1.0, 1e3])
+            if un is not None and rng.random() < 0.3:          # a nominal given as a broadcast (stride-0) view over the horizon: still only a nominal
+                un = (torch.randn(1, 1, m, dtype=torch.float64, generator=g)).expand(1, H, m)
+            un_before = None if un is None else un.clone()
             try:
                 x, u, cost = lqr(x0, 1, un)
             except Exception as e:
@@ -282,6 +285,8 @@ def kkt(rng, tier):
             Jr = float(cost_of(u[0].detach()))
             if abs(Jr - Jstar) > 1e-7 * (1 + abs(Jstar)) or abs(float(cost[0]) - Jr) > 1e-7 * (1 + abs(Jr)):
                 fails.append(dict(clause='lqr_optimal_and_cost_consistent', signature=f'ltv={ltv},rep={rep},time_varying_cost={tv_cost}', n=n, m=m, H=H, cost=float(cost[0]), true_cost_of_u=Jr, optimum=Jstar)); break
+            if un is not None and not torch.equal(un, un_before):
+                fails.append(dict(clause='lqr_leaves_the_nominal_trajectory_untouched', signature=f'ltv={ltv},rep={rep}', n=n, m=m, H=H)); break
             # the inputs themselves are the minimiser to float64 accuracy (the cost is flat to second order around it and cannot tell),
             # whatever nominal trajectory - also a large one - was supplied
             du_ = float((u[0].detach() - ustar).abs().max()) / (1 + float(ustar.abs().max()))
